@@ -140,7 +140,34 @@ def spec_run(case):
 
 # ----------------------------------------------------------------- implementation side
 
+class CaseTimeout(Exception):
+    pass
+
+
+def _on_alarm(signum, frame):
+    raise CaseTimeout()
+
+
+CASE_TIMEOUT_S = 5.0
+
+
 def impl_run(case):
+    """impl_run_inner under a watchdog: a ByteVec operation that does not return promptly (an
+    implementation that loops, e.g. iterating a dict it is appending to) is an observation"""
+    import signal
+
+    old = signal.signal(signal.SIGALRM, _on_alarm)
+    signal.setitimer(signal.ITIMER_REAL, CASE_TIMEOUT_S)
+    try:
+        return impl_run_inner(case)
+    except CaseTimeout:
+        return [("exc", f"timeout: the steps did not finish within {CASE_TIMEOUT_S}s")]
+    finally:
+        signal.setitimer(signal.ITIMER_REAL, 0)
+        signal.signal(signal.SIGALRM, old)
+
+
+def impl_run_inner(case):
     """Runs the steps on real ByteVec objects.  Output per step:
     ("step", raised: False | exception class name, [(len, layout, flat)] per live object)
     ("q", kind, content)   kind 0 = bytes/int, 1 = z3 term; content = codes or per-valuation values
@@ -322,6 +349,9 @@ def impl_run(case):
                 lay, flat = layout(o)
                 obs.append((len(o), lay, flat))
             out.append(("step", raised, obs))
+        except CaseTimeout:
+            out.append(("exc", f"timeout: step {st} did not finish within {CASE_TIMEOUT_S}s"[:200]))
+            break
         except Exception as e:  # noqa: BLE001
             out.append(("exc", f"{type(e).__name__}: {e}"[:200]))
             break
@@ -694,6 +724,42 @@ CORPUS = [
         ["setslice", 0, 1, 8, ["slice", 0, 4, 11], "call"],
         ["setslice", 0, 6, 40, ["slice", 0, 0, 34], "setitem"],
         ["unwrap", 0], ["word", 0, 5], ["word", 0, 30],
+    ]},
+]
+
+CORPUS += [
+    # nesting of depth 2 (a ByteVec holding a ByteVec holding a ByteVec), then reads and writes through it;
+    # a general-path write whose ByteVec value carries a nested chunk (the dict entry is copied as is)
+    {"tag": "corpus", "steps": [
+        ["new"], ["new"], ["new"], ["new"],
+        ["append", 1, ["leaf", 0, [0x11, 0x12], 0, 2, "raw"]], ["append", 1, ["leaf", 1, [code(0, 0), code(0, 1)], 0, 2, "raw"]],
+        ["append", 2, ["leaf", 0, [0x21, 0x22, 0x23, 0x24, 0x25, 0x26], 0, 6, "raw"]],
+        ["setbyte", 2, 0, 0x20, "int", "call"], ["setbyte", 2, 5, 0x2F, "int", "call"],
+        ["setslice", 2, 1, 5, ["whole", 1], "call"],            # aligned: 2 holds 1
+        ["append", 0, ["leaf", 0, list(range(0x30, 0x3A)), 0, 10, "raw"]],
+        ["setbyte", 0, 1, 0x3F, "int", "call"], ["setbyte", 0, 8, 0x3E, "int", "call"],
+        ["setslice", 0, 2, 8, ["whole", 2], "call"],            # aligned: 0 holds 2 holds 1
+        ["copy", 0, "state"],
+        ["get", 0, 4], ["get", 0, 5], ["unwrap", 0], ["word", 0, 3],
+        ["sliceof", 0, 3, 7, "state"],
+        ["setbyte", 0, 5, 0x77, "int", "call"],                 # splits the depth-2 nesting
+        ["setslice", 4, 4, 7, ["slice", 4, 2, 5], "call"],      # overlapping self copy across the nested chunk
+        ["append", 3, ["leaf", 0, [1, 2, 3, 4, 5, 6, 7, 8], 0, 8, "raw"]],
+        ["setslice", 3, 1, 7, ["slice", 2, 0, 6], "call"],
+        ["get", 0, 5], ["get", 4, 5], ["unwrap", 0], ["unwrap", 4], ["unwrap", 3], ["word", 4, 0],
+    ]},
+    {"tag": "corpus", "steps": [
+        ["new"], ["new"], ["new"],
+        ["append", 1, ["leaf", 0, [0x11, 0x12], 0, 2, "raw"]],
+        ["append", 2, ["leaf", 1, [code(0, j) for j in range(4)], 0, 4, "raw"]],
+        ["setbyte", 2, 0, 0x20, "int", "call"], ["setbyte", 2, 3, 0x2F, "int", "call"],
+        ["setslice", 2, 1, 3, ["whole", 1], "call"],            # 2 = [20][nested 1][2F]
+        ["append", 0, ["leaf", 0, list(range(0x30, 0x38)), 0, 8, "raw"]],
+        ["setslice", 0, 2, 6, ["whole", 2], "call"],            # general path: entries of 2 copied, nested ref kept
+        ["setslice", 0, 10, 14, ["whole", 2], "state"],         # backfill + append (unpacked)
+        ["copy", 0],
+        ["setslice", 3, 3, 5, ["leaf", 0, [0xAA, 0xBB], 0, 2, "raw"], "call"],   # aligned on the nested chunk of the copy
+        ["unwrap", 0], ["unwrap", 3], ["get", 0, 3], ["get", 3, 3], ["word", 0, 0],
     ]},
 ]
 
